@@ -137,10 +137,8 @@ class ImperialistCompetitiveOptimization(OptimizationAbstract):
                     old_cost = colony.cost
                     number_of_tasks = int(math.ceil(revolution_rate * dim))
                     candidates = np.random.choice(range(0, dim), number_of_tasks, replace=False)
-                    exchange = list(range(0, dim))
                     # remove the candidates from the exchange list
-                    for index in candidates:
-                        del exchange[index]
+                    exchange = [index for index in range(0, dim) if index not in candidates]
                     # select the candidates to exchange with
                     exchange_candidates = np.random.choice(exchange, number_of_tasks)
                     new_colony_representation = colony_representation
